@@ -31,15 +31,15 @@ PROPS = {
         lean_modules=["Properties.C08"],
         harness=[dict(bin="h-gsort")],
         trusted=[GO_TRUST % "h-gsort",
-                 "sort.Sort / sort.Stable return an ascending (resp. ascending and tie-preserving) permutation when Less is a strict weak order (contract; observed on every sampled slice, not proved)",
-                 "Go's ==, < on strings, integers and non-NaN floats are equality and a strict total order; go/parser + go/printer (used to read the generated Less bodies)"],
-        assumptions=["field values are compared through an abstract strict total order per key (floats without NaN); bool keys are Go bools",
-                     "records are well typed for the key list (a bool key holds a bool, every other key a value of its ordered type), as the Go type checker enforces",
-                     "duplicate priorities, malformed tags and omitted priorities are outside the quantifier: compared in the out-of-domain stream only"],
-        level_text="TODO",
-        level_note="TODO",
+                 "sort.Sort / sort.Stable beyond insertion-sort size (Len > 12 resp. > 20): return an ascending (resp. ascending and tie-preserving) permutation when Less is a strict weak order (contract; observed on every sampled slice up to length 200, not proved)",
+                 "Go's == and < on strings, integers and non-NaN floats are equality and a strict total order; the Go type checker (a bool key holds a bool); go/parser + go/printer (used to read the generated Less bodies)"],
+        assumptions=["field values are compared through an abstract strict total order per key (hypothesis StrictTotal; floats without NaN); bool keys are Go bools",
+                     "records are well typed for the key list (WellTyped: a bool key holds a bool, every other key a value of its ordered type), as the Go type checker enforces",
+                     "duplicate priorities, malformed tags and omitted priorities are outside the quantifier: the model mirrors them (dup_priority_rejected, tag_error_reported) but they are compared in the out-of-domain stream only"],
+        level_text="Machine-checked Lean 4 theorems (kernel-only axioms) over a model that mirrors gsort/gen statement by statement: sfdFromLine (split, 1-3 options, strconv.Atoi), createSorterDesc (grouping per sorter name with a re-sort after every insertion, Validate), PriorityTree, the template's PriorityBlock and CompareLine.String, and the meaning of the generated Less body. For EVERY struct definition with distinct priorities per sorter, every sorter name and every pair of well-typed elements, the generated Less equals lexicographic comparison of the tagged fields / accessor results in ascending priority with false < true (eval_generate_eq_lex; the spec lex is proved equal to the declarative 'first differing key decides' LexLess); it is irreflexive, asymmetric, transitive with transitive incomparability (generated_less_strictWeakOrder); the result does not depend on the sort algorithm used for the priorities (sorted_unique); Go's insertionSort (= sort.Sort for Len <= 12, sort.Stable for Len <= 20) and a stable merge sort driven by it return an ascending, tie-preserving permutation. Tied to /repo twice: the body of every generated Less (real CLI built from the working tree) is parsed and compared with the model's chain for that definition, and the compiled code's Less (all pairs of the value space), sort.Sort, sort.Stable, Swap, Len are compared with the model.",
+        level_note="Trusted: Lean kernel + propext/Quot.sound/Classical.choice; sort.Sort/sort.Stable for slices longer than 12/20 (contract, observed only); Go's comparison operators and type checker; the Go harness (definition generator, go/parser reader of the generated code, probe program) and the Lean driver. The theorems are about the model; the program-text comparison covers every generated definition, the execution comparison is exhaustive on pairs over 2-3 values per field.",
         technique="Lean 4 proof (structural induction over the generated comparison chain, for all struct definitions) + correspondence on the generated program text (go/parser) and on the compiled code (exhaustive Less, sort.Sort/sort.Stable)",
-        explanation="TODO",
+        explanation="theorems for all struct definitions x all element pairs; correspondence: ~300 generated definitions per quick run (every field type alone, all type pairs, random 1-5 keys, 1-3 sorters, value/pointer form), Less on all pairs, sort/stable on all slices <= 4 for small value spaces and random slices <= 200",
     ),
     "C17": dict(
         title="set: JSON and YAML encodings of Set round-trip membership",
